@@ -48,6 +48,7 @@ FLOW_SHAPES = [
     "assert a0, a1",
     "raise a0",
     "raise a0 from a1",
+    "raise a0 from None",
     "pass",
 ]
 WITH_SHAPES = [
